@@ -99,7 +99,7 @@ def lean_check(pid, tier, log):
     except Exception as e:  # noqa: BLE001
         problems.append("translator failed: %r" % (e,))
     # (2) build the property module, the bridge module (if any) and the driver
-    modules = [module] + ([bridge] if bridge else [])
+    modules = [module] + (bridge if isinstance(bridge, list) else ([bridge] if bridge else []))
     built = []
     for m in modules:
         rc, out = lake("build", m)
@@ -153,6 +153,11 @@ def lean_check(pid, tier, log):
         if rc != 0:
             problems.append("leanchecker rejected " + module)
     return theorems, discharged, problems
+
+
+def _bridge_str(pid):
+    b = load_obligations().get(pid, {}).get("bridge")
+    return " ".join(b) if isinstance(b, list) else (b or "")
 
 
 def _first_error(out):
@@ -348,7 +353,7 @@ def main(argv=None):
             "obligation_names": theorems,
             "undischarged": [t for t in theorems if t not in discharged],
             "lean_problems": problems,
-            "checker_cmd": f"python -m harness.translate && cd lean && lake build {load_obligations().get(pid, {}).get('module', '')} {load_obligations().get(pid, {}).get('bridge') or ''} && lake env lean .lake/Audit_{pid}.lean  # regenerate Gen/ from /repo, build property + bridge modules, '#print axioms' of every listed theorem",
+            "checker_cmd": f"python -m harness.translate && cd lean && lake build {load_obligations().get(pid, {}).get('module', '')} {_bridge_str(pid)} && lake env lean .lake/Audit_{pid}.lean  # regenerate Gen/ from /repo, build property + bridge modules, '#print axioms' of every listed theorem",
             "trusted_base": [
                 "Lean 4.33 kernel",
                 "axioms allowed: propext, Classical.choice, Quot.sound (audited by #print axioms on every listed theorem)",
